@@ -1,7 +1,7 @@
 /* C13, second sentence (bounded): scpiParser_detectProgramMessageUnit accepts a unit as well formed exactly
  * when it is: white space*, a complete header, then optionally white space and comma-separated program
  * data, ended by ';', a line terminator or the end of the input - for every input of up to LEN bytes over
- * {a : ? * blank 1 , ; NL " x}.  ('#' is left out: incomplete blocks are the known finding C05-incomplete-block-flush.) */
+ * {a : ? * blank 1 , ; NL " x}.  ('#' is left out: block data is covered by lang.block.* and kf.c05_block_flush.) */
 #include "ghost.c"
 size_t gh_li;
 #include "lexer.c"
